@@ -37,7 +37,8 @@ def _module_consts(tree):
             if isinstance(st.value, ast.Constant) and isinstance(st.value.value, str):
                 env[name] = st.value.value
             elif isinstance(st.value, ast.Set) and name in ("trackedNames", "builtinNames"):
-                sets[name] = [_str_const(e, env) for e in st.value.elts]
+                # a set literal has no order: sorted, so that reordering its elements changes nothing downstream
+                sets[name] = sorted(_str_const(e, env) for e in st.value.elts)
     for need in ("trackedNames", "builtinNames"):
         expect(need in sets, f"module constant {need} not found as a set literal in {REL}")
     expect("globalParametersName" in env, "globalParametersName not found")
@@ -150,7 +151,8 @@ def _visit_call(cls):
     expect(star_guard is not None, "visit_Call: star-argument test not found")
     only_outside = isinstance(star_guard, ast.BoolOp) and "inBehavior" in ast.dump(star_guard)
     expect("copy_location" in dump, "visit_Call: result no longer takes the location of the original call")
-    return lifted, inner, outer, only_outside
+    # the branches of the renaming chain test distinct names (checked above), so their order is immaterial: sorted
+    return sorted(lifted), inner, outer, only_outside
 
 
 def _visit_classdef(cls):
@@ -198,10 +200,13 @@ def extract():
     }
 
 
+# the DOCUMENTED constants (docs: ego/workspace/globalParameters accessors; str/int/float lifted to _toStrScenic/_toIntScenic/
+# _toFloatScenic of scenic.syntax.veneer; star arguments through callWithStarArgs/wrapStarredValue; Object; _scenic_properties).
+# The direct oracle of C09 expects exactly these; the side condition gen_cfg_documented pins the extracted data to them.
 DEFAULT = {
     "tracked": ["ego", "workspace"], "globalParams": "globalParameters",
-    "builtin": ["globalParameters", "str", "int", "float"],
-    "lifted": [("str", "_toStrScenic"), ("float", "_toFloatScenic"), ("int", "_toIntScenic")],
+    "builtin": ["float", "globalParameters", "int", "str"],
+    "lifted": [("float", "_toFloatScenic"), ("int", "_toIntScenic"), ("str", "_toStrScenic")],
     "wrapStar": "wrapStarredValue", "callStar": "callWithStarArgs", "starOnlyOutsideBehavior": True,
     "defaultBase": "Object", "propTable": "_scenic_properties", "annAssignRejected": True,
 }
